@@ -38,7 +38,7 @@ IsFail(v) == v.k \in {"err", "panic"}
 
 MapToks == {"map_string", "map_int", "map_bool", "map_named", "map_any", "map_skey", "map_okey"}
 ArrToks == {"arr1", "arr2"}
-Ctors == {"ptr", "slice", "st", "nil", "err", "panic"} \cup MapToks \cup ArrToks
+Ctors == {"ptr", "slice", "st", "stc", "nil", "err", "panic"} \cup MapToks \cup ArrToks
 KeyTypeOf(tok) == CASE tok = "map_string" -> <<"string">> [] tok = "map_int" -> <<"int">> [] tok = "map_bool" -> <<"bool">>
                     [] tok = "map_named" -> <<"named">> [] tok = "map_any" -> <<"any">>
                     [] tok = "map_skey" -> <<"skey">> [] tok = "map_okey" -> <<"okey">>
@@ -52,6 +52,21 @@ Strip(t) == SubSeq(t, PtrDepth(t) + 1, Len(t))
 Ptrs(n) == [i \in 1..n |-> "ptr"]
 IsContainerTok(x) == x \in {"slice"} \cup MapToks \cup ArrToks
 
+(* GenericRegister (serialization.go:63-77) as an operator on the registry  reg = [m : name -> type, rm : type -> name]:   *)
+(* a name that is taken, or a type that already has a name, is REFUSED and the registry is left as it was.                *)
+EmptyReg == [m |-> <<>>, rm |-> <<>>]                       \* functions with empty domain
+Register(reg, T, key) == IF key \in DOMAIN reg.m THEN [reg |-> reg, refused |-> TRUE]
+                         ELSE IF T \in DOMAIN reg.rm THEN [reg |-> reg, refused |-> TRUE]
+                         ELSE [reg |-> [m |-> reg.m @@ (key :> T), rm |-> reg.rm @@ (T :> key)], refused |-> FALSE]
+RECURSIVE RegisterAll(_, _)
+RegisterAll(reg, attempts) == IF attempts = <<>> THEN reg ELSE RegisterAll(Register(reg, Head(attempts)[1], Head(attempts)[2]).reg, Tail(attempts))
+(* what every use of the registry relies on: m and rm are inverse bijections *)
+RegistryOK(reg) == /\ \A k \in DOMAIN reg.m : reg.m[k] \in DOMAIN reg.rm /\ reg.rm[reg.m[k]] = k
+                   /\ \A T \in DOMAIN reg.rm : reg.rm[T] \in DOMAIN reg.m /\ reg.m[reg.rm[T]] = T
+(* In the shape grammar the outcome of the registrations is the predicate Registered: "st T" = struct{F T; Z int} was       *)
+(* registered under its own name; "stc T" = the DIFFERENT type struct{F T} whose registration was attempted UNDER THE NAME   *)
+(* OF "st T" and refused (the error is ignored, as the library itself does with `_ = GenericRegister`): it is not a         *)
+(* registered type, so a value of it must be refused by Marshal -- never written under the name of "st T".                   *)
 (* the registry rm / m (serialization.go:29-76): basic kinds, `any`, named basic types and structs that were registered *)
 Registered(t) == /\ t # <<>>
                  /\ \/ t[1] = "st"
